@@ -36,37 +36,64 @@ THEOREMS = [
     "PorepyVerif.C38.restart_time_restored",
     "PorepyVerif.C38.restart_time_restored_last",
     "PorepyVerif.C38.pvd_selects_latest",
+    "PorepyVerif.C38.point_data_roundtrip",
+    "PorepyVerif.C38.point_data_roundtrip_dim",
+    "PorepyVerif.C38.point_data_roundtrip_vector",
+    "PorepyVerif.C38.length_scale_points",
+    "PorepyVerif.C38.length_scale_data_untouched",
+    "PorepyVerif.C38.points_compatible_same_scale",
+    "PorepyVerif.C38.parse_makeName",
+    "PorepyVerif.C38.parse_makeName_nostep",
+    "PorepyVerif.C38.suffix_index",
+    "PorepyVerif.C38.suffix_zero_padding",
+    "PorepyVerif.C38.manual_resolution",
+    "PorepyVerif.C38.manual_agrees_with_automatic",
+    "PorepyVerif.C38.valueF_renderF",
+    "PorepyVerif.C38.pvd_selects_latest_labels",
+    "PorepyVerif.C38.pvd_index_is_latest_step",
 ]
 LEAN_MODULES = ["PorepyVerif.C38.Props"]
 AUDIT = "PorepyVerif/C38/Audit.lean"
 DRIVER = "PorepyVerif/C38/Driver.lean"
-N = {"quick": 24, "thorough": 500}
+N = {"quick": 22, "thorough": 450}
 RULE = ("md-grids from a recipe: hand-built 2-d strips mixing triangles, quadrilaterals, pentagons, hexagons; Cartesian and "
         "structured simplex grids in 1-3 d; 3-d prisms extruded from the strips, tensor (non-Cartesian) hexahedra; point grids; "
         "mdg_library squares/cubes with 1-3 fractures (interfaces with two sides) plus extra subdomains; 1-3 subdomains per "
-        "dimension in both creation orders. Data: distinct dyadic values per cell (scalar, vector nd 1-3 handed over 2-d or flat), "
-        "tuple input or state keys, binary or ascii, 1-3 exported time steps with different values, constants in the same or "
-        "separate files. Every case is exported once and imported three ways (list of vtu files, md pvd of the last step, "
-        "conventional pvd). non-trivial = some dimension has >= 2 cell-id blocks or >= 2 entities; distinct = distinct recipes")
+        "dimension in both creation orders; a fixed share of the cases (stratum 'mixed-nonlast') has >= 2 grids of one dimension "
+        "of which a NON-LAST one mixes cell types. Data: distinct dyadic values per cell and per node (scalar, vector nd 1-3 "
+        "handed over 2-d or flat), tuple input or state keys, binary or ascii, 1-3 exported time steps with different values "
+        "(labels with different digit counts and real times included), constants in the same or separate files, length scale "
+        "1, 1/2, 4, 1/8. Every case is exported once and imported four ways: list of vtu files (cell and point keys), md pvd of "
+        "the last step, conventional pvd, and renamed copies of the files with automatic=False and explicit dims / "
+        "are_subdomain_data (list, or one value). non-trivial = some dimension has >= 2 cell-id blocks or >= 2 entities; "
+        "distinct = distinct recipes")
 TRUSTED = [
-    "modelled, not verified: meshio's vtu writer/reader (file format, base64/zlib, cell blocks; its regrouping of polyhedral cell data by ascending node count is modelled as `readBack`), numpy fancy indexing/hstack/reshape glue, the node ordering of polygons/polyhedra (connectivity), point data",
-    "the per-cell type keys (number of nodes / faces per cell, isinstance CartGrid) and MortarGrid.num_cells = sum of side grids are computed by the harness from the porepy grids and compared with the exporter's cell_ids only through the correspondence check",
+    "modelled, not verified: meshio's vtu writer/reader (file format, base64/zlib, cell blocks; its regrouping of polyhedral cell data by ascending node count is modelled as `readBack`), numpy fancy indexing/hstack/reshape glue, the node ordering of polygons/polyhedra (connectivity)",
+    "the per-cell type keys (number of nodes / faces per cell, isinstance CartGrid), node coordinates, node counts and MortarGrid.num_cells / num_nodes = sums over the side grids are read by the harness from the porepy grids and tied to the exporter only through the correspondence check",
     "time information: the theorem assumes a number codec with dec(enc x) = some x; for the real code this is json.dump/json.load of Python floats (repr round-trips every finite binary64) and ints - trusted, and exercised by the oracle with arbitrary floats",
-    "pvd files: the XML layer (ElementTree, '%f' formatting of times) is not modelled; the model only says which step must be selected",
+    "pvd files: ElementTree parsing and that '%f' % t prints round(t*1e6) as digits '.' six digits and float() reads it back monotonically (the label model `renderF`/`valueF` is compared with the labels found in the real pvd files); file names are modelled as lists of '_'-separated pieces",
+    "length scale: exact only for powers of two (generator), since the model multiplies rationals",
 ]
-EXPLANATION = ("FULL for the permutation logic: model = grouping of cells by type per dimension with offsets, block-wise export, "
-               "import by scatter through cell_ids and chopping per entity (subdomains and two-sided mortar grids), incl. meshio's "
-               "regrouping of polyhedral data; theorems groups_partition_cells, import_export_id (scalar and vector), chop_concat_id, "
-               "roundtrip_dim, time_info_roundtrip, pvd_selects_latest. Correspondence compares cell_ids, the blocks read back from the "
-               "files with meshio, and the imported values, exactly. The file format itself is outside (partial in that sense).")
-ASSUMPTIONS = ["cell values are dyadic rationals (binary64 exact) so that the ascii writer and the rational model agree exactly",
-               "times passed to write_pvd increase with the time-step index (as in a simulation)"]
+EXPLANATION = ("FULL for the permutation and bookkeeping logic: model = grouping of cells by type per dimension with offsets, block-wise "
+               "export, import by scatter through cell_ids and chopping per entity (subdomains and two-sided mortar grids) incl. meshio's "
+               "regrouping of polyhedral data; point data (stack / chop by node counts); length scale (points scaled, data untouched); file "
+               "names, automatic and manual (automatic=False) resolution of dimension and kind; '%f' time labels with their numeric value, "
+               "choice of the numerically latest label and time index from the file suffix; time-information files. Theorems: "
+               "groups_partition_cells, import_export_id (scalar, vector), chop_concat_id, roundtrip_dim, point_data_roundtrip(_dim,_vector), "
+               "length_scale_*, parse_makeName, suffix_index, manual_resolution, valueF_renderF, pvd_selects_latest_labels, "
+               "pvd_index_is_latest_step, time_info_roundtrip. Correspondence compares cell_ids, points, the blocks and point values read "
+               "back from the files with meshio, file names, pvd selection and all imported values, exactly. The file format itself is "
+               "outside (partial in that sense).")
+ASSUMPTIONS = ["cell and point values are dyadic rationals (binary64 exact) so that the ascii writer and the rational model agree exactly",
+               "times passed to write_pvd are non-negative and increase with the time-step index (as in a simulation)",
+               "file name stem without the word 'mortar' (hypothesis of parse_makeName)"]
 
 SHIFT = 4096  # values written at the j-th exported step (j = 0, 1, ..) are base + SHIFT*j
-ROUTES = ("vtu", "mdg_pvd", "pvd")
-KEY_POLY = "polyhedron-blocks-not-in-ascending-node-count"
-KEY_PVD_SORT = "pvd-latest-step-chosen-by-string-order"
-KEY_PVD_INDEX = "pvd-time-index-taken-from-time-label"
+ROUTES = ("vtu", "mdg_pvd", "pvd", "manual")
+CELL_FIELDS = ("s", "v")
+POINT_FIELDS = ("ps", "pv")
+FIELDS = CELL_FIELDS + POINT_FIELDS
+KEY_MANUAL = "import-automatic-false-later-files-resolved-by-name"
 
 
 # ----------------------------------------------------------------------------- grids from recipes
@@ -145,35 +172,6 @@ def _spec_dim(spec):
     return {"strip": 2, "prism": 3, "tri": 2, "tet": 3, "tensor3": 3, "point": 0}.get(t) if t != "cart" else len(spec["n"])
 
 
-def _spec_keys(spec):
-    """number of nodes per cell of a 3-d grid spec, in cell order (what the polyhedron export groups by)"""
-    t = spec["t"]
-    if t == "prism":
-        return [2 * (a + c + 2) for a, c in spec["cells"]] * spec["layers"]
-    if t in ("cart", "tensor3"):
-        return [8] * int(np.prod(spec["n"]))
-    if t == "tet":
-        return [4] * (6 * int(np.prod(spec["n"])))
-    raise ValueError(spec)
-
-
-def _poly_mode(specs3):
-    """does the exporter use the polyhedron writer for these 3-d grids (mirror of _export_grid_3d on recipes)"""
-    tys = set()
-    for s in specs3:
-        tys.add("tetra" if s["t"] == "tet" else "hex" if s["t"] == "cart" else "poly")
-    return not (tys == {"tetra"} or tys == {"hex"})
-
-
-def _first_occurrence_keys(key_lists):
-    order = []
-    for ks in key_lists:
-        for k in sorted(set(ks)):
-            if k not in order:
-                order.append(k)
-    return order
-
-
 def _build_mdg(case):
     import porepy as pp
 
@@ -205,8 +203,13 @@ def _entities(mdg):
     return out
 
 
+def _nn(e):
+    """number of exported points of a grid / mortar grid"""
+    return int(e.num_cells) if e.dim == 0 else int(e.num_nodes)
+
+
 def _base_data(case, ents):
-    """distinct dyadic values: {(kind,dim): {"s": [Fraction per cell, per entity], "v": [columns per entity]}}"""
+    """distinct dyadic values per cell / node. scalars: list per entity; vectors: list of columns per entity"""
     import random
 
     rng = random.Random(f"C38-data-{case['data_seed']}")
@@ -214,19 +217,21 @@ def _base_data(case, ents):
     explicit = case.get("values")
     out = {}
     for kind, d, es in ents:
-        sizes = [int(e.num_cells) for e in es]
-        tot = sum(sizes)
-        if explicit is not None and f"{kind}{d}" in explicit:
-            flat_s = [Fraction(x) for part in explicit[f"{kind}{d}"] for x in part]
-        else:
-            flat_s = [Fraction(k, 8) for k in rng.sample(range(-4 * tot - 8, 4 * tot + 8), tot)]
-        flat_v = [Fraction(k, 4) for k in rng.sample(range(-2 * tot * nd - 8, 2 * tot * nd + 8), tot * nd)]
-        s, v, o = [], [], 0
-        for n in sizes:
-            s.append(flat_s[o:o + n])
-            v.append([flat_v[(o + c) * nd:(o + c + 1) * nd] for c in range(n)])
-            o += n
-        out[(kind, d)] = {"s": s, "v": v}
+        rec = {}
+        for fs, fv, sizes in (("s", "v", [int(e.num_cells) for e in es]), ("ps", "pv", [_nn(e) for e in es])):
+            tot = sum(sizes)
+            if fs == "s" and explicit is not None and f"{kind}{d}" in explicit:
+                flat_s = [Fraction(x) for part in explicit[f"{kind}{d}"] for x in part]
+            else:
+                flat_s = [Fraction(k, 8) for k in rng.sample(range(-4 * tot - 8, 4 * tot + 8), tot)]
+            flat_v = [Fraction(k, 4) for k in rng.sample(range(-2 * tot * nd - 8, 2 * tot * nd + 8), tot * nd)]
+            s, v, o = [], [], 0
+            for n in sizes:
+                s.append(flat_s[o:o + n])
+                v.append([flat_v[(o + c) * nd:(o + c + 1) * nd] for c in range(n)])
+                o += n
+            rec[fs], rec[fv] = s, v
+        out[(kind, d)] = rec
     return out
 
 
@@ -241,12 +246,15 @@ def _arrays(case, part_s, part_v, j, flat_vec):
     return s, A
 
 
-def _exp_s(part_s, j):
-    return [frac(x + SHIFT * j) for x in part_s]
-
-
-def _exp_v(part_v, j):
-    return [frac(x + SHIFT * j) for col in part_v for x in col]
+def _expected(base_kd, j):
+    """what the importer must deliver for step j: scalars as they are, vectors flat (entity-major)"""
+    out = {}
+    for f in FIELDS:
+        if f in ("s", "ps"):
+            out[f] = [[frac(x + SHIFT * j) for x in p] for p in base_kd[f]]
+        else:
+            out[f] = [[frac(x + SHIFT * j) for col in p for x in col] for p in base_kd[f]]
+    return out
 
 
 # ----------------------------------------------------------------------------- the real code, once per case
@@ -269,17 +277,26 @@ def _workdir():
         shutil.rmtree(d, ignore_errors=True)
 
 
+def _pts(a):
+    return [[frac(x) for x in col] for col in np.asarray(a, dtype=float).T]
+
+
 def _grid_info(g):
-    """what the model needs to know about a grid, computed independently of the exporter"""
+    """what the model needs to know about a grid, read independently of the exporter"""
     import porepy as pp
 
     nc = int(g.num_cells)
     if g.dim == 0:
-        return {"cart": False, "nfaces": [0] * nc, "nnodes": [0] * nc}
+        return {"cart": False, "nfaces": [0] * nc, "nnodes": [0] * nc, "dim": 0, "nodes": [], "centers": _pts(g.cell_centers)}
     cn = g.cell_nodes()
     nn = np.diff(cn.tocsc().indptr)
     nf = np.diff(g.cell_faces.tocsc().indptr)
-    return {"cart": bool(isinstance(g, pp.CartGrid)), "nfaces": [int(x) for x in nf], "nnodes": [int(x) for x in nn]}
+    return {"cart": bool(isinstance(g, pp.CartGrid)), "nfaces": [int(x) for x in nf], "nnodes": [int(x) for x in nn],
+            "dim": int(g.dim), "nodes": _pts(g.nodes), "centers": []}
+
+
+def _data_dict(mdg, kind, e):
+    return mdg.subdomain_data(e) if kind == "sd" else mdg.interface_data(e)
 
 
 def _zero(mdg, ents, case):
@@ -287,7 +304,7 @@ def _zero(mdg, ents, case):
 
     for kind, d, es in ents:
         for e in es:
-            data = mdg.subdomain_data(e) if kind == "sd" else mdg.interface_data(e)
+            data = _data_dict(mdg, kind, e)
             data.pop(pp.TIME_STEP_SOLUTIONS, None)
             if case["style"] == "state":  # keys=None on import looks the keys up in the data dictionaries
                 pp.set_solution_values(name="s", values=np.zeros(e.num_cells), data=data, time_step_index=0)
@@ -299,13 +316,12 @@ def _read_imported(mdg, ents):
 
     out = {}
     for kind, d, es in ents:
-        s, v = [], []
+        rec = {f: [] for f in FIELDS}
         for e in es:
-            data = mdg.subdomain_data(e) if kind == "sd" else mdg.interface_data(e)
-            sol = data.get(pp.TIME_STEP_SOLUTIONS, {})
-            s.append([frac(x) for x in np.asarray(sol["s"][0]).ravel()] if "s" in sol else None)
-            v.append([frac(x) for x in np.asarray(sol["v"][0]).ravel()] if "v" in sol else None)
-        out[f"{kind}{d}"] = {"s": s, "v": v}
+            sol = _data_dict(mdg, kind, e).get(pp.TIME_STEP_SOLUTIONS, {})
+            for f in FIELDS:
+                rec[f].append([frac(x) for x in np.asarray(sol[f][0]).ravel()] if f in sol else None)
+        out[f"{kind}{d}"] = rec
     return out
 
 
@@ -321,7 +337,33 @@ def _run(case):
     return _CACHE[k]
 
 
+def _err(e):
+    import traceback
+
+    tb = traceback.extract_tb(e.__traceback__)
+    line = (tb[-1].line or "") if tb else ""
+    return f"{type(e).__name__}: {str(e)[:160]} @ {line[:80]}"
+
+
+def _manual_args(case, truth):
+    """arguments of the automatic=False call for files with the given (dim, is_subdomain) in call order"""
+    dims = [d for d, _ in truth]
+    flags = [f for _, f in truth]
+    kw = {"automatic": False}
+    kw["dims"] = dims[0] if len(set(dims)) == 1 and case["data_seed"] % 2 == 0 else dims
+    if all(flags) and case["data_seed"] % 3 == 0:
+        pass  # default: subdomain data
+    elif len(set(flags)) == 1 and case["data_seed"] % 3 == 1:
+        kw["are_subdomain_data"] = flags[0]
+    else:
+        kw["are_subdomain_data"] = flags
+    return kw
+
+
 def _run_real(case, folder):
+    import random
+    import xml.etree.ElementTree as ET
+
     import meshio
     import porepy as pp
 
@@ -330,25 +372,34 @@ def _run_real(case, folder):
     base = _base_data(case, ents)
     steps = case["steps"]
     last = len(steps) - 1
-    keys = ["s", "v"]
+    L = float(Fraction(case.get("L", "1")))
     rec = {"dims": [], "routes": {}, "errors": {}}
+    xkw = dict(binary=case["binary"], export_constants_separately=case["sep_const"], length_scale=L)
 
     # ---- export
-    ex = pp.Exporter(mdg, "c38", folder, binary=case["binary"], export_constants_separately=case["sep_const"])
+    ex = pp.Exporter(mdg, "c38", folder, **xkw)
     for j, st in enumerate(steps):
-        tuples = []
+        cell_t, point_t = [], []
         for kind, d, es in ents:
-            for e, ps, pv in zip(es, base[(kind, d)]["s"], base[(kind, d)]["v"]):
+            b = base[(kind, d)]
+            for i, e in enumerate(es):
                 if case["style"] == "state":
-                    s, v = _arrays(case, ps, pv, j, True)
-                    data = mdg.subdomain_data(e) if kind == "sd" else mdg.interface_data(e)
-                    pp.set_solution_values(name="s", values=s, data=data, time_step_index=0)
-                    pp.set_solution_values(name="v", values=v, data=data, time_step_index=0)
+                    data = _data_dict(mdg, kind, e)
+                    for fs, fv in (("s", "v"), ("ps", "pv")):
+                        s, v = _arrays(case, b[fs][i], b[fv][i], j, True)
+                        pp.set_solution_values(name=fs, values=s, data=data, time_step_index=0)
+                        pp.set_solution_values(name=fv, values=v, data=data, time_step_index=0)
                 else:
-                    s, v = _arrays(case, ps, pv, j, case["flat_vec"])
-                    tuples += [(e, "s", s), (e, "v", v)]
-        ex.write_vtu(keys if case["style"] == "state" else tuples, time_step=st)
+                    s, v = _arrays(case, b["s"][i], b["v"][i], j, case["flat_vec"])
+                    cell_t += [(e, "s", s), (e, "v", v)]
+                    s, v = _arrays(case, b["ps"][i], b["pv"][i], j, case["flat_vec"])
+                    point_t += [(e, "ps", s), (e, "pv", v)]
+        if case["style"] == "state":
+            ex.write_vtu(list(CELL_FIELDS), data_pt=list(POINT_FIELDS), time_step=st)
+        else:
+            ex.write_vtu(cell_t, data_pt=point_t, time_step=st)
     ex.write_pvd(times=None if case["times"] is None else np.array(case["times"], dtype=float))
+    rec["files"] = sorted(p.name for p in folder.glob("*.vtu"))
 
     def fname(kind, d, st):
         return folder / ("c38_" + ("mortar_" if kind == "intf" else "") + f"{d}_{st:06d}.vtu")
@@ -359,44 +410,75 @@ def _run_real(case, folder):
         grids = list(es) if kind == "sd" else [g for i in es for _, g in i.side_grids.items()]
         sides = [1] * len(es) if kind == "sd" else [len(i.side_grids) for i in es]
         r = {"kind": kind, "dim": d, "grids": [_grid_info(g) for g in grids], "sides": sides,
-             "sizes": [int(e.num_cells) for e in es],
+             "sizes": [int(e.num_cells) for e in es], "node_sizes": [_nn(e) for e in es],
              "cell_ids": [[int(x) for x in ids] for ids in geom.cell_ids],
              "types": [c.type for c in geom.connectivity]}
         try:
             m = meshio.read(fname(kind, d, steps[last]))
-            r["s_blocks"] = [[frac(x - SHIFT * last) for x in np.asarray(b).ravel()] for b in m.cell_data["s"]]
-            r["v_blocks"] = [[[frac(x - SHIFT * last) for x in row] for row in np.asarray(b).reshape(len(b), -1)] for b in m.cell_data["v"]]
-        except Exception as e:  # meshio refuses the file (finding: polyhedron block order)
-            r["s_blocks"] = r["v_blocks"] = {"err": type(e).__name__, "msg": str(e)[:200]}
+            sub = SHIFT * last
+            r["pts"] = [[frac(x) for x in row] for row in np.asarray(m.points)]
+            r["s_blocks"] = [[frac(x - sub) for x in np.asarray(b).ravel()] for b in m.cell_data["s"]]
+            r["v_blocks"] = [[[frac(x - sub) for x in row] for row in np.asarray(b).reshape(len(b), -1)] for b in m.cell_data["v"]]
+            r["ps_file"] = [frac(x - sub) for x in np.asarray(m.point_data["ps"]).ravel()]
+            pv = np.asarray(m.point_data["pv"])
+            r["pv_file"] = [[frac(x - sub) for x in row] for row in pv.reshape(len(pv), -1)]
+        except Exception as e:
+            for f in ("pts", "s_blocks", "v_blocks", "ps_file", "pv_file"):
+                r.setdefault(f, {"err": type(e).__name__, "msg": str(e)[:200]})
         rec["dims"].append(r)
 
-    # ---- import, three ways, each into the zeroed md-grid through a new Exporter (as after a restart)
-    ikeys = None if case["style"] == "state" else keys
+    # ---- the conventional pvd file as it is on disk
+    rec["pvd_entries"] = [{"label": el.attrib["timestep"], "file": el.attrib["file"]}
+                          for el in ET.parse(folder / "c38.pvd").iter("DataSet")]
+
+    # ---- renamed copies for the automatic=False route
+    order = [(kind, d) for kind, d, es in ents]
+    random.Random(f"C38-manual-{case['data_seed']}").shuffle(order)
+    if not case.get("manual_all", True):
+        order = order[:1]
+    manual_files, truth = [], []
+    for n, (kind, d) in enumerate(order):
+        dst = folder / f"restart-{'abcdefghij'[n % 10]}{n}x.vtu"
+        shutil.copy(fname(kind, d, steps[last]), dst)
+        manual_files.append(dst)
+        truth.append((d, kind == "sd"))
+    mkw = _manual_args(case, truth)
+    rec["manual"] = {"truth": [[d, f] for d, f in truth], "dims": mkw["dims"], "flags": mkw.get("are_subdomain_data"),
+                     "keys": [f"{'sd' if f else 'intf'}{d}" for d, f in truth]}
+
+    # ---- import, four ways, each into the zeroed md-grid through a new Exporter (as after a restart)
+    ikeys = None if case["style"] == "state" else list(CELL_FIELDS)
     for route in ROUTES:
         _zero(mdg, ents, case)
-        ex2 = pp.Exporter(mdg, "c38", folder, binary=case["binary"], export_constants_separately=case["sep_const"])
+        ex2 = pp.Exporter(mdg, "c38", folder, **xkw)
         info = {}
         try:
             if route == "vtu":
                 for kind, d, es in ents:  # file by file, so that a failure in one dimension does not hide the others
                     try:
-                        ex2.import_state_from_vtu([fname(kind, d, steps[last])], keys=ikeys)
+                        ex2.import_state_from_vtu([fname(kind, d, steps[last])], keys=ikeys, keys_pt=list(POINT_FIELDS))
                     except Exception as e:
-                        rec["errors"][f"vtu:{kind}{d}"] = f"{type(e).__name__}: {str(e)[:200]}"
+                        rec["errors"][f"vtu:{kind}{d}"] = _err(e)
             elif route == "mdg_pvd":
                 info["time_index"] = int(ex2.import_from_pvd(folder / f"c38_{steps[last]:06d}.pvd", is_mdg_pvd=True, keys=ikeys))
-            else:
+            elif route == "pvd":
                 info["time_index"] = int(ex2.import_from_pvd(folder / "c38.pvd", keys=ikeys))
+                info["restart_files"] = [str(f) for f in ex2._restart_files]
+            else:
+                ex2.import_state_from_vtu(list(manual_files), keys=ikeys, keys_pt=list(POINT_FIELDS), **mkw)
         except Exception as e:
-            rec["errors"][route] = f"{type(e).__name__}: {str(e)[:200]}"
+            rec["errors"][route] = _err(e)
         info["imp"] = _read_imported(mdg, ents)
         rec["routes"][route] = info
 
     # ---- expected values (independent of the exporter): what was handed over at each step
-    rec["expected"] = {j: {f"{kind}{d}": {"s": [_exp_s(p, j) for p in base[(kind, d)]["s"]], "v": [_exp_v(p, j) for p in base[(kind, d)]["v"]]}
-                           for kind, d, es in ents} for j in range(len(steps))}
-    rec["base"] = {f"{kind}{d}": {"s": [[frac(x) for x in p] for p in base[(kind, d)]["s"]],
-                                   "v": [[[frac(x) for x in col] for col in p] for p in base[(kind, d)]["v"]]} for kind, d, es in ents}
+    rec["expected"] = {j: {f"{kind}{d}": _expected(base[(kind, d)], j) for kind, d, es in ents} for j in range(len(steps))}
+    rec["base"] = {}
+    for kind, d, es in ents:
+        b = base[(kind, d)]
+        rec["base"][f"{kind}{d}"] = {"s": [[frac(x) for x in p] for p in b["s"]], "ps": [[frac(x) for x in p] for p in b["ps"]],
+                                      "v": [[[frac(x) for x in col] for col in p] for p in b["v"]],
+                                      "pv": [[[frac(x) for x in col] for col in p] for p in b["pv"]]}
 
     # ---- time information
     rec["time"] = _run_time(case, folder)
@@ -428,37 +510,28 @@ def _run_time(case, folder):
     return out
 
 
-# ----------------------------------------------------------------------------- classes of inputs hit by the known findings
-def _class_poly(rec):
-    """3-d subdomains go through the polyhedron writer and the node counts first occur in non-ascending order"""
-    for r in rec["dims"]:
-        if r["kind"] == "sd" and r["dim"] == 3 and any(t.startswith("polyhedron") for t in r["types"]):
-            order = _first_occurrence_keys([g["nnodes"] for g in r["grids"]])
-            return order != sorted(order)
-    return False
-
-
 def _labels(case):
     times = case["times"] if case["times"] is not None else case["steps"]
     return ["%f" % float(t) for t in times]
 
 
-def _class_pvd_sort(case):
-    lab = _labels(case)
-    return sorted(set(lab))[-1] != lab[-1]
+def _route_fields(route):
+    return FIELDS if route in ("vtu", "manual") else CELL_FIELDS  # import_from_pvd has no point keys
 
 
-def _class_pvd_index(case):
-    times = case["times"] if case["times"] is not None else case["steps"]
-    return int(float("%f" % float(times[-1]))) != case["steps"][-1]
+def _route_keys(rec, route):
+    return rec["manual"]["keys"] if route == "manual" else [f"{r['kind']}{r['dim']}" for r in rec["dims"]]
 
 
-def _data_step(case, rec, imp):
-    """which exported step do the imported scalar values belong to (None: none of them)"""
-    for j in range(len(case["steps"])):
-        if all(imp[k]["s"] == rec["expected"][j][k]["s"] and imp[k]["v"] == rec["expected"][j][k]["v"] for k in imp):
-            return j
-    return None
+def _expected_files(case, rec):
+    """(appendix, dim, step) of every vtu file the exporter must have written; appendix 0 none, 1 mortar, 2 constant, 3 constant_mortar"""
+    out = []
+    for j, st in enumerate(case["steps"]):
+        for r in rec["dims"]:
+            out.append({"app": 1 if r["kind"] == "intf" else 0, "dim": r["dim"], "step": st})
+            if case["sep_const"] and j == 0:
+                out.append({"app": 3 if r["kind"] == "intf" else 2, "dim": r["dim"], "step": st})
+    return out
 
 
 # ----------------------------------------------------------------------------- harness interface
@@ -466,18 +539,25 @@ def impl_run(case):
     rec = _run(case)
     last = len(case["steps"]) - 1
     dims = []
+    sub = lambda part: None if part is None else [frac(Fraction(x) - SHIFT * last) for x in part]
     for r in rec["dims"]:
         k = f"{r['kind']}{r['dim']}"
         imp = {}
         for route in ROUTES:
+            if k not in _route_keys(rec, route):
+                continue
             got = rec["routes"][route]["imp"][k]
-            sub = lambda part: None if part is None else [frac(Fraction(x) - SHIFT * last) for x in part]
-            imp[route] = {"s": [sub(p) for p in got["s"]], "v": [sub(p) for p in got["v"]]}
-        dims.append({"kind": r["kind"], "dim": r["dim"], "cell_ids": r["cell_ids"], "sizes": r["sizes"],
-                     "s_blocks": r["s_blocks"], "v_blocks": r["v_blocks"], "imp": imp})
+            imp[route] = {f: [sub(p) for p in got[f]] for f in _route_fields(route)}
+        dims.append({"kind": r["kind"], "dim": r["dim"], "cell_ids": r["cell_ids"], "sizes": r["sizes"], "node_sizes": r["node_sizes"],
+                     "pts": r["pts"], "s_blocks": r["s_blocks"], "v_blocks": r["v_blocks"], "ps_file": r["ps_file"], "pv_file": r["pv_file"],
+                     "imp": imp})
     t = rec["time"]
+    truth_names = sorted((e["app"], e["dim"], e["step"]) for e in _expected_files(case, rec))
     return {"dims": dims, "time": {"times": t["times"], "dts": t["dts"], "set": t["set"]},
-            "pvd": {"time_index": rec["routes"]["pvd"].get("time_index"), "errors": sorted(rec["errors"])}}
+            "pvd": {"time_index": rec["routes"]["pvd"].get("time_index"), "files": rec["routes"]["pvd"].get("restart_files")},
+            "files": rec["files"],
+            "parsed": [[d, a in (0, 2), st] for a, d, st in truth_names],
+            "manual": rec["manual"]["truth"], "errors": sorted(rec["errors"])}
 
 
 def model_ops(case):
@@ -485,30 +565,49 @@ def model_ops(case):
     ops = []
     for r in rec["dims"]:
         k = f"{r['kind']}{r['dim']}"
-        ops.append({"op": "dim", "dim": r["dim"], "grids": r["grids"], "sides": r["sides"],
-                    "scalar": rec["base"][k]["s"], "vector": rec["base"][k]["v"]})
+        b = rec["base"][k]
+        ops.append({"op": "dim", "dim": r["dim"], "L": case.get("L", "1"), "grids": r["grids"], "sides": r["sides"],
+                    "scalar": b["s"], "vector": b["v"], "pscalar": b["ps"], "pvector": b["pv"]})
     ops.append({"op": "time", "writes": [[frac(_num(t)), frac(_num(dt))] for t, dt in case["time"]["writes"]], "index": case["time"]["index"]})
-    ops.append({"op": "pvd", "steps": case["steps"]})
+    ents = []
+    for e in rec["pvd_entries"]:
+        stem = e["file"].rsplit(".", 1)[0]
+        ents.append({"label": [ord(c) for c in e["label"]], "suffix": int(stem.split("_")[-1]), "file": e["file"]})
+    ops.append({"op": "pvd_labels", "entries": ents})
+    ops.append({"op": "names", "files": sorted(_expected_files(case, rec), key=lambda e: (e["app"], e["dim"], e["step"]))})
+    m = rec["manual"]
+    ops.append({"op": "resolve", "n": len(m["truth"]), "dims": m["dims"], "flags": m["flags"]})
     return ops
 
 
 def model_decode(outs, case):
     rec = _run(case)
+    nd = len(rec["dims"])
     dims = []
     for r, o in zip(rec["dims"], outs):
         if "err" in o:
             dims.append(o)
             continue
-        imp = {route: {"s": o["s_imp"], "v": o["v_imp"]} for route in ROUTES}
-        dims.append({"kind": r["kind"], "dim": r["dim"], "cell_ids": o["cell_ids"], "sizes": o["sizes"],
-                     "s_blocks": o["s_blocks"], "v_blocks": o["v_blocks"], "imp": imp})
-    t, p = outs[-2], outs[-1]
-    return {"dims": dims, "time": t, "pvd": {"time_index": p.get("step"), "errors": []}}
+        k = f"{r['kind']}{r['dim']}"
+        imp = {}
+        for route in ROUTES:
+            if k not in _route_keys(rec, route):
+                continue
+            full = {"s": o["s_imp"], "v": o["v_imp"], "ps": o["ps_imp"], "pv": o["pv_imp"]}
+            imp[route] = {f: full[f] for f in _route_fields(route)}
+        dims.append({"kind": r["kind"], "dim": r["dim"], "cell_ids": o["cell_ids"], "sizes": o["sizes"], "node_sizes": o["node_sizes"],
+                     "pts": o["pts"], "s_blocks": o["s_blocks"], "v_blocks": o["v_blocks"], "ps_file": o["ps_file"], "pv_file": o["pv_file"],
+                     "imp": imp})
+    t, p, names, res = outs[nd], outs[nd + 1], outs[nd + 2], outs[nd + 3]
+    return {"dims": dims, "time": t, "pvd": {"time_index": p.get("index"), "files": p.get("files")},
+            "files": sorted(names.get("names", [])), "parsed": names.get("parsed"),
+            "manual": res.get("resolved", res), "errors": []}
 
 
 def oracle(case):
-    """The property on the real code: every subdomain and interface gets back, cell by cell, what was written at the
-    most recent time step - through each of the three import routes; the time information is restored."""
+    """The property on the real code: every subdomain and interface gets back, cell by cell (and node by node), what was
+    written at the most recent time step - through each import route; the files hold scaled points and untouched data; the
+    conventional pvd yields the most recent time-step index; the time information is restored."""
     rec = _run(case)
     last = len(case["steps"]) - 1
     fails = []
@@ -516,47 +615,47 @@ def oracle(case):
     def add(what, key):
         fails.append({"what": what, "key": key})
 
-    poly = _class_poly(rec)
     want = rec["expected"][last]
+    nfiles = len(rec["manual"]["truth"])
     for route in ROUTES:
         info = rec["routes"][route]
-        errs = {k: v for k, v in rec["errors"].items() if k == route or k.startswith(route + ":")}
-        known_poly_err = False
-        for k, msg in errs.items():
-            if poly and "Incompatible cell data" in msg and (k in ("mdg_pvd", "pvd", "vtu:sd3")):
-                known_poly_err = True
-                add(f"import ({k}) raised {msg} for 3-d grids whose polyhedron blocks are not in ascending node count", KEY_POLY)
+        for k, msg in rec["errors"].items():
+            if not (k == route or k.startswith(route + ":")):
+                continue
+            if route == "manual" and nfiles >= 2 and "vtu_file_pieces" in msg:
+                add(f"import_state_from_vtu({nfiles} renamed files, automatic=False, dims={rec['manual']['dims']}, "
+                    f"are_subdomain_data={rec['manual']['flags']}) raised {msg}: the keyword arguments are consumed by the first file", KEY_MANUAL)
             else:
                 add(f"import ({k}) raised {msg}", f"import-raises-{route}")
-        if known_poly_err and route != "vtu":
-            continue  # the whole import was aborted
-        if route == "pvd":
-            j = _data_step(case, rec, info["imp"])
-            if j is not None and j != last:
-                cls = _class_pvd_sort(case)
-                add(f"import_from_pvd restored the data of time step {case['steps'][j]} although {case['steps'][last]} is the most recent one "
-                    f"(labels {_labels(case)})", KEY_PVD_SORT if cls else "pvd-wrong-step")
-                continue
-        for k in want:
-            for name in ("s", "v"):
+        for k in _route_keys(rec, route):
+            for name in _route_fields(route):
                 for e, (w, g) in enumerate(zip(want[k][name], info["imp"][k][name])):
                     if w != g:
+                        if route == "manual" and any(f["key"] == KEY_MANUAL for f in fails):
+                            continue  # the call was aborted
                         bad = None if g is None else [i for i, (a, b) in enumerate(zip(w, g)) if a != b][:4]
-                        if poly and k == "sd3" and g is None and known_poly_err:
-                            continue  # already reported: meshio refused the file
-                        if poly and k == "sd3":
-                            key = KEY_POLY  # the values of another block arrived here
-                        else:
-                            key = f"roundtrip-differs-{route}-{k}-{name}"
-                        add(f"{route}: entity {e} of {k}, field {name}: written {w[:6]}.. imported {None if g is None else g[:6]}.. (first differing positions {bad})", key)
+                        add(f"{route}: entity {e} of {k}, field {name}: written {w[:6]}.. imported {None if g is None else g[:6]}.. "
+                            f"(first differing positions {bad}; steps {case['steps']}, labels {_labels(case)})", f"roundtrip-differs-{route}-{k}-{name}")
         if "time_index" in info and info["time_index"] != case["steps"][last]:
-            if route == "pvd" and _class_pvd_index(case) and not _class_pvd_sort(case):
-                add(f"import_from_pvd returned time index {info['time_index']} for the files of time step {case['steps'][last]} "
-                    f"(int of the time label {_labels(case)[-1]})", KEY_PVD_INDEX)
-            elif route == "pvd" and _class_pvd_sort(case):
-                add(f"import_from_pvd returned time index {info['time_index']}, most recent step is {case['steps'][last]} (labels {_labels(case)})", KEY_PVD_SORT)
-            else:
-                add(f"{route}: returned time index {info['time_index']}, exported step {case['steps'][last]}", f"time-index-{route}")
+            add(f"{route}: returned time index {info['time_index']}, most recent exported step {case['steps'][last]} (labels {_labels(case)})", f"time-index-{route}")
+
+    # files: points are the grid points times the length scale, cell and point data are the values handed over
+    L = Fraction(case.get("L", "1"))
+    for r in rec["dims"]:
+        k = f"{r['kind']}{r['dim']}"
+        if isinstance(r["pts"], dict):
+            add(f"meshio cannot read the file of {k}: {r['pts']}", f"file-unreadable-{k}")
+            continue
+        gp = [p for g in r["grids"] for p in (g["centers"] if g["dim"] == 0 else g["nodes"])]
+        scaled = [[Fraction(x) * L for x in p] for p in gp]
+        close = lambda u, v: u == v if case["binary"] else abs(u - v) <= Fraction(1, 10 ** 9) * max(1, abs(u))  # ascii: 11 digits
+        if len(scaled) != len(r["pts"]) or not all(close(u, Fraction(v)) for p, q in zip(scaled, r["pts"]) for u, v in zip(p, q)):
+            add(f"points of the {k} file are not the grid points times length_scale {case.get('L', '1')}", f"file-points-{k}")
+        b = rec["base"][k]
+        if sorted(x for blk in r["s_blocks"] for x in blk) != sorted(x for p in b["s"] for x in p):
+            add(f"cell values in the {k} file are not the values handed over (length_scale {case.get('L', '1')})", f"file-cell-data-{k}")
+        if r["ps_file"] != [x for p in b["ps"] for x in p] or r["pv_file"] != [c for p in b["pv"] for c in p]:
+            add(f"point values in the {k} file are not the values handed over, node by node", f"file-point-data-{k}")
 
     # time information
     t = rec["time"]
@@ -573,17 +672,25 @@ def oracle(case):
     elif t["set"] != {"err": "IndexError"}:
         add(f"set_time_and_dt_from_exported_steps({idx}) on {n} entries gave {t['set']}", "time-info-restart-range")
 
-    known = (KEY_POLY, KEY_PVD_SORT, KEY_PVD_INDEX)
-    for f in fails:  # anything outside the classes of the known findings is reported first
-        if f["key"] not in known:
+    for f in fails:  # anything else than the known finding is reported first
+        if f["key"] != KEY_MANUAL:
             return f
     return fails[0] if fails else None
 
 
 def compare(impl, model, case):
+    """exact everywhere; the points of ascii files (11 significant digits) with class-T tolerance"""
+    import copy
+
     from harness.common import deep_compare
 
-    return deep_compare(impl, model)
+    a, b = copy.deepcopy(impl), copy.deepcopy(model)
+    for k, (x, y) in enumerate(zip(a.get("dims", []), b.get("dims", []))):
+        if isinstance(x, dict) and isinstance(y, dict) and "pts" in x and "pts" in y:
+            d = deep_compare(x.pop("pts"), y.pop("pts"), f".dims[{k}].pts", None if case["binary"] else 1e-9)
+            if d:
+                return d
+    return deep_compare(a, b)
 
 
 def nontrivial(case):
@@ -598,12 +705,17 @@ def signature(case):
 
 
 # ----------------------------------------------------------------------------- generator
-def _rand_strip(rng, tier):
-    n = rng.randint(1, 5 if tier == "quick" else 9)
-    shapes = [(1, 0), (0, 1), (1, 1), (1, 1), (2, 0), (0, 2), (2, 1), (1, 2), (2, 2), (3, 1), (3, 2)]
-    if rng.random() < 0.15:  # uniform strip: one block only
-        return [list(rng.choice(shapes))] * n
-    return [list(rng.choice(shapes)) for _ in range(n)]
+SHAPES = [(1, 0), (0, 1), (1, 1), (1, 1), (2, 0), (0, 2), (2, 1), (1, 2), (2, 2), (3, 1), (3, 2)]
+
+
+def _rand_strip(rng, tier, mixed=False):
+    n = rng.randint(2 if mixed else 1, 5 if tier == "quick" else 9)
+    if not mixed and rng.random() < 0.15:  # uniform strip: one block only
+        return [list(rng.choice(SHAPES))] * n
+    cells = [list(rng.choice(SHAPES)) for _ in range(n)]
+    if mixed and len({a + c for a, c in cells}) < 2:
+        cells[0] = [1, 0] if sum(cells[1]) != 1 else [2, 2]
+    return cells
 
 
 def _rand_2d(rng, tier):
@@ -635,81 +747,75 @@ def _rand_low(rng):
     return out
 
 
-def _case_poly_class(case):
-    specs3 = [s for s in case["extra"] if _spec_dim(s) == 3]
-    lists = [_spec_keys(s) for s in specs3]
-    base = case.get("base")
-    if base is not None and base["lib"] == "cube":
-        if base["grid_type"] != "cartesian":
-            return False  # not generated together with 3-d extras
-        blist = [8] * 8
-        lists = lists + [blist] if case["extra_first"] else [blist] + lists
-        specs3 = specs3 + [{"t": "cart"}]
-    if not specs3 or not _poly_mode(specs3):
-        return False
-    order = _first_occurrence_keys(lists)
-    return order != sorted(order)
+def _mixed_nonlast(case):
+    """>= 2 grids of one dimension (2 or 3) and a NON-LAST one mixes cell types (by recipe)"""
+    if case.get("base") is not None and not case.get("extra_first"):
+        pass  # library grids come first; they are uniform, the extras follow
+    for dim in (2, 3):
+        specs = [s for s in case["extra"] if _spec_dim(s) == dim]
+        n_after = 1 if (case.get("base") is not None and case.get("extra_first") and
+                        ((dim == 2 and case["base"]["lib"] == "square") or (dim == 3 and case["base"]["lib"] == "cube"))) else 0
+        for i, s in enumerate(specs):
+            if s["t"] in ("strip", "prism") and len({a + c for a, c in s["cells"]}) >= 2 and (i < len(specs) - 1 or n_after):
+                return True
+    return False
 
 
 def gen_case(rng, tier):
-    import itertools
-
-    for _ in range(200):
-        r = rng.random()
-        case = {"base": None, "extra": [], "extra_first": False}
-        if r < 0.33:
-            case["extra"] = [_rand_2d(rng, tier) for _ in range(rng.randint(1, 3))] + _rand_low(rng)
-        elif r < 0.58:
-            case["extra"] = [_rand_3d(rng, tier) for _ in range(rng.randint(1, 3))]
-            if rng.random() < 0.3:
-                case["extra"] += [_rand_2d(rng, tier)] + _rand_low(rng)
+    r = rng.random()
+    case = {"base": None, "extra": [], "extra_first": False}
+    if r < 0.22:  # stratum: several grids of one dimension, a non-last one mixes cell types
+        if rng.random() < 0.65:
+            case["extra"] = [{"t": "strip", "cells": _rand_strip(rng, tier, mixed=True)} for _ in range(rng.randint(1, 2))] + [_rand_2d(rng, tier)]
         else:
-            if rng.random() < 0.6:
-                gt = rng.choice(["cartesian", "cartesian", "simplex"])
-                case["base"] = {"lib": "square", "grid_type": gt, "fracs": rng.choice([[0], [1], [0, 1]]), "cell_size": rng.choice([0.5, 0.5, 0.25])}
-                if rng.random() < 0.6:
-                    case["extra"] = [_rand_2d(rng, tier) for _ in range(rng.randint(1, 2))]
-            else:
-                simplex = tier == "thorough" and rng.random() < 0.2
-                case["base"] = {"lib": "cube", "grid_type": "simplex" if simplex else "cartesian",
-                                "fracs": [0] if simplex else rng.choice([[0], [0, 1], [0, 1, 2]]), "cell_size": 0.5}
-                if not simplex and rng.random() < 0.5:
-                    case["extra"] = [_rand_3d(rng, tier)] + ([_rand_2d(rng, tier)] if rng.random() < 0.5 else [])
-            case["extra_first"] = rng.random() < 0.5
+            case["extra"] = [{"t": "prism", "cells": _rand_strip(rng, "quick", mixed=True)[:4], "layers": rng.randint(1, 2)}
+                             for _ in range(rng.randint(1, 2))] + [_rand_3d(rng, tier)]
+            if len({a + c for a, c in case["extra"][0]["cells"]}) < 2:
+                case["extra"][0]["cells"] = [[1, 0], [1, 1]]
+        if rng.random() < 0.3:
+            case["extra"] += _rand_low(rng)
+    elif r < 0.42:
+        case["extra"] = [_rand_2d(rng, tier) for _ in range(rng.randint(1, 3))] + _rand_low(rng)
         rng.shuffle(case["extra"])
-        if _case_poly_class(case) and rng.random() < 0.8:
-            # mostly avoid the class of the known polyhedron finding: look for a creation order that is fine
-            fixed = False
-            for ef in (case["extra_first"], not case["extra_first"]):
-                for perm in itertools.islice(itertools.permutations(case["extra"]), 24):
-                    c2 = dict(case, extra=list(perm), extra_first=ef)
-                    if not _case_poly_class(c2):
-                        case, fixed = c2, True
-                        break
-                if fixed:
-                    break
-            if not fixed:
-                continue
-        break
+    elif r < 0.62:
+        case["extra"] = [_rand_3d(rng, tier) for _ in range(rng.randint(1, 3))]
+        if rng.random() < 0.3:
+            case["extra"] += [_rand_2d(rng, tier)] + _rand_low(rng)
+        rng.shuffle(case["extra"])
+    else:
+        if rng.random() < 0.6:
+            gt = rng.choice(["cartesian", "cartesian", "simplex"])
+            case["base"] = {"lib": "square", "grid_type": gt, "fracs": rng.choice([[0], [1], [0, 1]]), "cell_size": rng.choice([0.5, 0.5, 0.25])}
+            if rng.random() < 0.6:
+                case["extra"] = [_rand_2d(rng, tier) for _ in range(rng.randint(1, 2))]
+        else:
+            simplex = tier == "thorough" and rng.random() < 0.2
+            case["base"] = {"lib": "cube", "grid_type": "simplex" if simplex else "cartesian",
+                            "fracs": [0] if simplex else rng.choice([[0], [0, 1], [0, 1, 2]]), "cell_size": 0.5}
+            if not simplex and rng.random() < 0.5:
+                case["extra"] = [_rand_3d(rng, tier)] + ([_rand_2d(rng, tier)] if rng.random() < 0.5 else [])
+        case["extra_first"] = rng.random() < 0.5
     case["data_seed"] = rng.randrange(10 ** 9)
     case["nd"] = rng.choice([1, 2, 2, 3, 3])
     case["style"] = rng.choice(["tuple", "tuple", "state"])
     case["flat_vec"] = rng.random() < 0.4
     case["binary"] = rng.random() < 0.7
     case["sep_const"] = rng.random() < 0.2
+    case["L"] = rng.choice(["1", "1", "1/2", "4", "1/8"])
+    case["manual_all"] = rng.random() < 0.5
     r = rng.random()
-    if r < 0.8:
+    if r < 0.6:
         k = rng.randint(1, 3)
         lo = rng.choice([0, 0, 1, 3, 10, 25])
         hi = 9 if lo < 10 else 99
         case["steps"] = sorted(rng.sample(range(lo, hi + 1), k))
         case["times"] = None
-    elif r < 0.9:  # steps whose labels have different numbers of digits
+    elif r < 0.8:  # steps whose labels have different numbers of digits
         case["steps"] = rng.choice([[9, 10], [2, 10], [8, 9, 10], [7, 12], [99, 100], [5, 11, 100]])
         case["times"] = None
     else:  # actual times, as DataSavingMixin.write_pvd_and_vtu passes them
         k = rng.randint(1, 3)
-        dt = rng.choice([0.5, 0.25, 2.0, 1.0])
+        dt = rng.choice([0.5, 0.25, 2.0, 1.0, 0.1, 7.5])
         s0 = rng.randint(0, 3)
         case["steps"] = list(range(s0, s0 + k))
         case["times"] = [dt * s for s in case["steps"]]
@@ -739,16 +845,15 @@ def shrink_candidates(case):
         yield dict(case, steps=case["steps"][1:], times=None if case["times"] is None else case["times"][1:])
     if len(case["time"]["writes"]) > 1 or case["time"]["index"] != -1:
         yield dict(case, time={"writes": case["time"]["writes"][-1:], "index": -1})
-    for k, v in (("sep_const", False), ("binary", True), ("style", "tuple"), ("flat_vec", False), ("nd", 2)):
-        if case[k] != v:
+    for k, v in (("sep_const", False), ("binary", True), ("style", "tuple"), ("flat_vec", False), ("nd", 2), ("L", "1"), ("manual_all", False)):
+        if case.get(k, v) != v:
             yield dict(case, **{k: v})
 
 
 def stats(cases, impl_outs):
-    n_blocks, n_ent, routes_ok = {}, {}, 0
+    n_blocks, n_ent = {}, {}
     kinds = {"sd": 0, "intf": 0}
     dims = {}
-    poly = 0
     for c, o in zip(cases, impl_outs):
         if "dims" not in o:
             continue
@@ -759,12 +864,15 @@ def stats(cases, impl_outs):
             n_blocks[str(b)] = n_blocks.get(str(b), 0) + 1
             e = len(r["sizes"])
             n_ent[str(e)] = n_ent.get(str(e), 0) + 1
-        poly += int(_case_poly_class(c))
+    lab = lambda c: _labels(c)
     return {"dimension_records": dims, "subdomain_vs_interface_records": kinds, "cell_id_blocks_per_record": n_blocks,
-            "entities_per_record": n_ent, "cases_in_polyhedron_finding_class": poly,
-            "cases_in_pvd_sort_class": sum(int(_class_pvd_sort(c)) for c in cases),
-            "cases_in_pvd_index_class": sum(int(_class_pvd_index(c) and not _class_pvd_sort(c)) for c in cases),
+            "entities_per_record": n_ent,
+            "stratum_mixed_cell_types_in_non_last_grid": sum(int(_mixed_nonlast(c)) for c in cases),
+            "pvd_labels_lexicographic_order_differs_from_numeric": sum(int(sorted(set(lab(c)))[-1] != lab(c)[-1]) for c in cases),
+            "pvd_real_times": sum(1 for c in cases if c["times"] is not None),
+            "manual_route_files": {str(k): sum(1 for o in impl_outs if "manual" in o and len(o["manual"]) == k) for k in range(1, 7)},
+            "length_scales": {L: sum(1 for c in cases if c.get("L", "1") == L) for L in ("1", "1/2", "4", "1/8")},
             "styles": {s: sum(1 for c in cases if c["style"] == s) for s in ("tuple", "state")},
             "ascii": sum(1 for c in cases if not c["binary"]), "separate_constants": sum(1 for c in cases if c["sep_const"]),
             "with_library_mdg": sum(1 for c in cases if c["base"] is not None),
-            "export_import_cycles": len(cases), "import_calls": 3 * len(cases)}
+            "export_import_cycles": len(cases), "import_calls": 4 * len(cases)}
